@@ -110,17 +110,22 @@ static int ufd_is_open(int k) { return ufd_r[k] >= 0; }
 static const unsigned long long TMR_NS[NKEY + 1] = {0, 1000000ULL, 5000000000ULL, 5000000001ULL};
 
 /* ---- poll control ---- */
-static struct { int m; char kind; int key; } batch[8];
+static struct { int m; char kind[8]; int key; } batch[8];
 static int nbatch, batch_armed;
-static char ready_seen[64];
+static char ready_seen[160];
 static int poll_calls;
 static int midx(const char *real) { if (!real) return -1; for (int i = 0; i < nmods; i++) if (!strcmp(RN[i], real)) return i; return -1; }
 
-static int src_matches(ev_src_t *src, int m, char kind, int key) {
-    if (!src || !src->mod || midx(m_mod_name(src->mod)) != m) return 0;
-    if (kind == 'p') return src->type == M_SRC_TYPE_PS;
-    if (kind == 'f') return src->type == M_SRC_TYPE_FD && src->fd_src.fd == ufd_r[key];
-    if (kind == 't') return src->type == M_SRC_TYPE_TMR && !(src->flags & (1 << 7)) && src->tmr_src.its.ns == TMR_NS[key];
+#define SRC_INTERNAL (1 << 7)
+static int src_matches(ev_src_t *src, int m, const char *kind, int key) {
+    if (!src) return 0;
+    if (!strcmp(kind, "tick")) return !src->mod && src->type == M_SRC_TYPE_TMR;
+    if (!src->mod || midx(m_mod_name(src->mod)) != m) return 0;
+    if (!strcmp(kind, "ps")) return src->type == M_SRC_TYPE_PS;
+    if (!strcmp(kind, "fd")) return src->type == M_SRC_TYPE_FD && src->fd_src.fd == ufd_r[key];
+    if (!strcmp(kind, "tmr")) return src->type == M_SRC_TYPE_TMR && !(src->flags & SRC_INTERNAL) && src->tmr_src.its.ns == TMR_NS[key];
+    if (!strcmp(kind, "tb")) return src->type == M_SRC_TYPE_TMR && (src->flags & SRC_INTERNAL) && src->userptr == &src->mod->tb;
+    if (!strcmp(kind, "bt")) return src->type == M_SRC_TYPE_TMR && (src->flags & SRC_INTERNAL) && src->userptr == &src->mod->batch;
     return 0;
 }
 int __wrap_epoll_wait(int epfd, struct epoll_event *events, int maxevents, int timeout) {
@@ -128,14 +133,17 @@ int __wrap_epoll_wait(int epfd, struct epoll_event *events, int maxevents, int t
     struct epoll_event tmp[64];
     int n = __real_epoll_wait(epfd, tmp, 64, 0);
     poll_calls++;
-    /* the really-ready set (mailboxes, user descriptors, timers), rendered like the spec's Ready() */
+    /* the really-ready set (mailboxes, user descriptors, timers, internal timers), rendered like the spec's Ready() */
     size_t k = 0;
     ready_seen[0] = 0;
     for (int mi = 0; mi < nmods; mi++) {
-        for (int i = 0; i < n; i++) if (src_matches(tmp[i].data.ptr, mi, 'p', 0)) { k += snprintf(ready_seen + k, sizeof ready_seen - k, "%sp0,", LN[mi]); break; }
-        for (int key = 1; key <= NKEY; key++) for (int i = 0; i < n; i++) if (src_matches(tmp[i].data.ptr, mi, 'f', key)) { k += snprintf(ready_seen + k, sizeof ready_seen - k, "%sf%d,", LN[mi], key); break; }
-        for (int key = 1; key <= NKEY; key++) for (int i = 0; i < n; i++) if (src_matches(tmp[i].data.ptr, mi, 't', key)) { k += snprintf(ready_seen + k, sizeof ready_seen - k, "%st%d,", LN[mi], key); break; }
+        for (int i = 0; i < n; i++) if (src_matches(tmp[i].data.ptr, mi, "ps", 0)) { k += snprintf(ready_seen + k, sizeof ready_seen - k, "%sp0,", LN[mi]); break; }
+        for (int key = 1; key <= NKEY; key++) for (int i = 0; i < n; i++) if (src_matches(tmp[i].data.ptr, mi, "fd", key)) { k += snprintf(ready_seen + k, sizeof ready_seen - k, "%sf%d,", LN[mi], key); break; }
+        for (int key = 1; key <= NKEY; key++) for (int i = 0; i < n; i++) if (src_matches(tmp[i].data.ptr, mi, "tmr", key)) { k += snprintf(ready_seen + k, sizeof ready_seen - k, "%st%d,", LN[mi], key); break; }
+        for (int i = 0; i < n; i++) if (src_matches(tmp[i].data.ptr, mi, "tb", 0)) { k += snprintf(ready_seen + k, sizeof ready_seen - k, "%sb0,", LN[mi]); break; }
+        for (int i = 0; i < n; i++) if (src_matches(tmp[i].data.ptr, mi, "bt", 0)) { k += snprintf(ready_seen + k, sizeof ready_seen - k, "%so0,", LN[mi]); break; }
     }
+    for (int i = 0; i < n; i++) if (src_matches(tmp[i].data.ptr, -1, "tick", 0)) { k += snprintf(ready_seen + k, sizeof ready_seen - k, "k0,"); break; }
     if (!batch_armed) return 0;
     batch_armed = 0;
     int out = 0;
@@ -185,14 +193,16 @@ static void project(char *buf, size_t n, const char *topdesc) {
     m_ctx_t *c = m_ctx();
     const char *cn = m_ctx_name();
     /* m_ctx() is NULL inside callbacks of DENY_CTX modules: then only what the module handles show is projected */
-    if (!cn && depth == 0) k += snprintf(buf + k, n - k, "ctx:none,0,0,0");
+    if (!cn && depth == 0) k += snprintf(buf + k, n - k, "ctx:none,0,0,0,t0");
     else if (!c) k += snprintf(buf + k, n - k, "ctx:hidden");
-    else k += snprintf(buf + k, n - k, "ctx:%s,%ld,%zu,%d", c->state == M_CTX_LOOPING ? "looping" : "idle", (long)m_ctx_len(), c->stats.running_modules, (int)c->quit);
+    else k += snprintf(buf + k, n - k, "ctx:%s,%ld,%zu,%d,t%d", c->state == M_CTX_LOOPING ? "looping" : "idle", (long)m_ctx_len(), c->stats.running_modules, (int)c->quit,
+                       !c->tick.src ? 0 : c->tick.src->tmr_src.its.ns == TMR_NS[1] ? 1 : c->tick.src->tmr_src.its.ns == TMR_NS[2] ? 2 : 9);
     for (int i = 0; i < nmods; i++)
         if (H[i] && m_mod_state(H[i]) != M_MOD_ZOMBIE)
-            k += snprintf(buf + k, n - k, "|%s:%s:%d:%d:%d:%d:%d", LN[i], stname(H[i]), mailbox_len(H[i]), (int)m_queue_len(H[i]->batch.events),
-                          (int)m_queue_len(H[i]->stashed), (int)m_stack_len(H[i]->recvs), (int)(H[i]->batch.len > 99 ? 99 : H[i]->batch.len));
-        else k += snprintf(buf + k, n - k, "|%s:%s:0:0:0:0:0", LN[i], stname(H[i]));
+            k += snprintf(buf + k, n - k, "|%s:%s:%d:%d:%d:%d:%d:%d:%d", LN[i], stname(H[i]), mailbox_len(H[i]), (int)m_queue_len(H[i]->batch.events),
+                          (int)m_queue_len(H[i]->stashed), (int)m_stack_len(H[i]->recvs), (int)(H[i]->batch.len > 99 ? 99 : H[i]->batch.len),
+                          H[i]->tb.rate ? (int)(H[i]->tb.tokens > 9 ? 9 : H[i]->tb.tokens) : -1, H[i]->batch.timer.ns != 0);
+        else k += snprintf(buf + k, n - k, "|%s:%s:0:0:0:0:0:-1:0", LN[i], stname(H[i]));
     /* source counts per kind through the public API (subscriptions, fd, tmr, sgn, path, pid, task, thresh), and the total */
     k += snprintf(buf + k, n - k, "|src:");
     for (int i = 0; i < nmods; i++) {
@@ -326,7 +336,7 @@ static int nth_cb(void *up, void *data) { if (--nth_idx == 0) { nth_evt = data; 
 
 /* ---- user actions ---- */
 static int lidx(const char *ln) { for (int i = 0; i < nmods; i++) if (!strcmp(LN[i], ln)) return i; return -1; }
-static int norm(long r, int keep_eexist) { if (r >= 0) return (int)r; if (keep_eexist && r == -EEXIST) return -17; return -1; }
+static int norm(long r, int keep_eexist) { if (r >= 0) return (int)r; if (keep_eexist && r == -EEXIST) return -17; if (r == -EAGAIN) return -11; return -1; }
 /* a send is prepared with a fresh payload; it replaces the id's previous payload only if the library accepted the call */
 static struct { void *ptr; int watch; int autofree; int live; } NEWPAY; static int newpay_id;
 static void *new_payload(int p, int autofree) {
@@ -357,7 +367,7 @@ static m_mod_flags mflags_i(int i, int which) {
 }
 static m_mod_flags mflags(int i) { return mflags_i(i, 1); }
 
-static int is_env_action(const char *a) { return !strcmp(a, "FdReady") || !strcmp(a, "FdDrain") || !strcmp(a, "FdReopen") || !strcmp(a, "TmrFire") || !strcmp(a, "SetErrno"); }
+static int is_env_action(const char *a) { return !strcmp(a, "TbTick") || !strcmp(a, "BtFire") || !strcmp(a, "TickFire") || !strcmp(a, "FdReady") || !strcmp(a, "FdDrain") || !strcmp(a, "FdReopen") || !strcmp(a, "TmrFire") || !strcmp(a, "SetErrno"); }
 static void exec_action(gw_edge *e) {
     const char *a = e->act;
     char tb[64];
@@ -375,14 +385,23 @@ static void exec_action(gw_edge *e) {
         /* the batch: "[[A;ps;0];[B;fd;1]]" = A's mailbox, then descriptor source 1 of B */
         nbatch = 0;
         for (const char *c = e->sargs[0]; *c && nbatch < 8; c++)
-            if (*c >= 'A' && *c <= 'Z' && c[1] == ';') {
-                char nm[2] = {*c, 0};
-                batch[nbatch].m = lidx(nm);
-                batch[nbatch].kind = c[2];                       /* p(s) f(d) t(mr) */
-                const char *q = strchr(c + 2, ';');
-                batch[nbatch].key = q ? atoi(q + 1) : 0;
+            if (*c == '[' && c[1] != '[' && c[1] != ']') {
+                /* "[A;ps;0]" or "[;tick;0]" */
+                char nm[8] = {0}, kd[8] = {0};
+                int key = 0;
+                const char *q = c + 1;
+                size_t a = 0;
+                while (*q && *q != ';' && a < 7) nm[a++] = *q++;
+                if (*q == ';') q++;
+                a = 0;
+                while (*q && *q != ';' && a < 7) kd[a++] = *q++;
+                if (*q == ';') key = atoi(q + 1);
+                batch[nbatch].m = nm[0] ? lidx(nm) : -1;
+                snprintf(batch[nbatch].kind, sizeof batch[nbatch].kind, "%s", kd);
+                batch[nbatch].key = key;
                 nbatch++;
-                c = q ? q : c + 1;
+                c = strchr(c, ']');
+                if (!c) break;
             }
         batch_armed = 1;
         int pc0 = poll_calls;
@@ -455,6 +474,24 @@ static void exec_action(gw_edge *e) {
             if (!(src->flags & (1 << 7)) && src->tmr_src.its.ns == TMR_NS[key] && r != 0) { uint64_t one = 1; r = __real_write(src->tmr_src.f.fd, &one, 8) == 8 ? 0 : -1; }
         });
     }
+    else if (!strcmp(a, "SetTokenBucket")) {
+        /* arg "[rate;burst]": rate id 1 -> 4 per second (period 250 ms), 2 -> 1000 per second */
+        int rate = 0, burst = 0;
+        sscanf(e->sargs[1], "[%d;%d]", &rate, &burst);
+        r = m_mod_set_tokenbucket(H[m], rate == 0 ? 0 : rate == 1 ? 4 : 1000, (uint64_t)burst);
+        if (r == -EAGAIN) { keep = 2; }
+    }
+    else if (!strcmp(a, "SetBatchTimeout")) r = m_mod_set_batch_timeout(H[m], e->args[1] ? 7000000ULL : 0);
+    else if (!strcmp(a, "CtxSetTick")) r = m_ctx_set_tick(e->args[0] ? TMR_NS[e->args[0]] : 0);
+    else if (!strcmp(a, "TbTick") || !strcmp(a, "BtFire")) {
+        void *want = a[0] == 'T' ? (void *)&H[m]->tb : (void *)&H[m]->batch;
+        r = -1;
+        m_itr_foreach(H[m]->srcs[M_SRC_TYPE_TMR], {
+            ev_src_t *src = m_itr_get(m_itr);
+            if ((src->flags & SRC_INTERNAL) && src->userptr == want && r != 0) { uint64_t one = 1; r = __real_write(src->tmr_src.f.fd, &one, 8) == 8 ? 0 : -1; }
+        });
+    }
+    else if (!strcmp(a, "TickFire")) { m_ctx_t *cc = m_ctx(); uint64_t one = 1; r = cc && cc->tick.src && __real_write(cc->tick.src->tmr_src.f.fd, &one, 8) == 8 ? 0 : -1; }
     else if (!strcmp(a, "SetErrno")) { errno_to_leave = (int)e->args[0]; r = 0; }
     else if (!strcmp(a, "SetBatchSize")) r = m_mod_set_batch_size(H[m], (size_t)e->args[1]);
     else if (!strcmp(a, "Stash")) {
